@@ -53,8 +53,10 @@ def pointset(kind, n_dim, n, seed):
         return np.ascontiguousarray(p)
     elif kind == 'compact':
         # a broad cluster next to an extremely compact one (volume ratio far below float epsilon)
-        k = n // 2
-        p = np.vstack([g.normal(0.35, 0.08, (n - k, n_dim)), 0.8 + 1e-9 * g.normal(size=(k, n_dim))])
+        # the broad cluster is small in number (it is blocked after the first split), so the next split goes to
+        # the compact one
+        k = 7
+        p = np.vstack([g.normal(0.35, 0.08, (k, n_dim)), 0.8 + 1e-12 * g.normal(size=(n - k, n_dim))])
     elif kind == 'many':
         # many well separated small clusters: unions with more than ten members
         m = 14
